@@ -155,7 +155,7 @@ class World:
                                     all(isinstance(e, ast.Constant) and isinstance(e.value, str) for e in st.value.elts):
                                 m.ns["__all__"] = [e.value for e in st.value.elts]
                             elif n.id == "__all__":
-                                raise AnalysisError("__all__ of %s is not a static list of strings" % m.name)
+                                m.ns["__all__"] = _filtered_names(st.value, m)
                             else:
                                 m.ns[n.id] = Def(m.name, n.id)
             elif isinstance(st, ast.AnnAssign):
@@ -192,3 +192,55 @@ class World:
             if cur is None:
                 return None
         return cur
+
+
+def _filtered_names(value, m):
+    """__all__ = [n for n in dir() if <test on n>]  (also globals() / list(...) / sorted(...) around it): the namespace at
+    this point filtered by a test made of startswith/endswith, ==, !=, in, not in on literals, and/or/not."""
+    def unwrap(e):
+        while isinstance(e, ast.Call) and isinstance(e.func, ast.Name) and e.func.id in ("list", "sorted", "tuple") and len(e.args) == 1:
+            e = e.args[0]
+        return e
+    value = unwrap(value)
+    if not (isinstance(value, ast.ListComp) and len(value.generators) == 1 and isinstance(value.generators[0].target, ast.Name)
+            and isinstance(value.elt, ast.Name) and value.elt.id == value.generators[0].target.id and not value.generators[0].is_async):
+        raise AnalysisError("__all__ of %s is not a static list of strings" % m.name)
+    g = value.generators[0]
+    src = unwrap(g.iter)
+    if not (isinstance(src, ast.Call) and isinstance(src.func, ast.Name) and src.func.id in ("dir", "globals", "vars", "locals") and not src.args):
+        raise AnalysisError("__all__ of %s is computed from %s" % (m.name, ast.unparse(g.iter)))
+    var = g.target.id
+
+    def lit(e):
+        if isinstance(e, ast.Constant) and isinstance(e.value, str):
+            return e.value
+        if isinstance(e, (ast.Tuple, ast.List, ast.Set)) and all(isinstance(x, ast.Constant) and isinstance(x.value, str) for x in e.elts):
+            return [x.value for x in e.elts]
+        raise AnalysisError("__all__ of %s: test on %s" % (m.name, ast.unparse(e)))
+
+    def ev(t, name):
+        if isinstance(t, ast.BoolOp):
+            vals = [ev(v, name) for v in t.values]
+            return all(vals) if isinstance(t.op, ast.And) else any(vals)
+        if isinstance(t, ast.UnaryOp) and isinstance(t.op, ast.Not):
+            return not ev(t.operand, name)
+        if isinstance(t, ast.Compare) and len(t.ops) == 1 and isinstance(t.left, ast.Name) and t.left.id == var:
+            r = lit(t.comparators[0])
+            op = t.ops[0]
+            if isinstance(op, ast.Eq):
+                return name == r
+            if isinstance(op, ast.NotEq):
+                return name != r
+            if isinstance(op, ast.In):
+                return name in r
+            if isinstance(op, ast.NotIn):
+                return name not in r
+        if isinstance(t, ast.Call) and isinstance(t.func, ast.Attribute) and isinstance(t.func.value, ast.Name) and t.func.value.id == var \
+                and t.func.attr in ("startswith", "endswith") and len(t.args) == 1:
+            r = lit(t.args[0])
+            r = tuple(r) if isinstance(r, list) else r
+            return getattr(name, t.func.attr)(r)
+        raise AnalysisError("__all__ of %s: test %s" % (m.name, ast.unparse(t)))
+    names = [k for k in m.ns if isinstance(k, str)]
+    return sorted(n for n in names if all(ev(c, n) for c in g.ifs))
+
